@@ -7,9 +7,10 @@ request   c02 outcomes <backend> <world> <program>
   backend   mutex | mmap
   world     which metrics are registered when the program starts: letters `c` (unlabelled counter = value object 0) and/or
             `p` (labelled counter = parent 0, label values 0/1, child for label value k = value object 10+k); `q` = `p` whose
-            children for label values 0 and 1 already exist (ids 900, 901) when the threads start; `-` for none
+            children for label values 0 and 1 already exist (ids 900, 901) when the threads start; `v` = the value objects 0 and 1
+            hold 5 when the threads start; `-` for none
   program   threads separated by `|`, calls by `,`:
-              inc:o:a   get:o   lab:k   linc:k:a   rem:k   clr   reg:c   unreg:c   col   rcol:c   rrcol:c
+              inc:o:a   set:o:a   get:o   lab:k   linc:k:a   rem:k   clr   reg:c   unreg:c   col   rcol:c   rrcol:c
             (rcol:c = registry.collect() with a collector that registers c, unregisters c and does a restricted lookup from
              inside its collect(); rrcol:c = registry.restricted_registry([its name]).collect() over the same collector)
 reply     ok <explored states> <outcome>;<outcome>…        | err <why>
@@ -77,9 +78,11 @@ structure Cfg where
   hasC : Bool
   hasP : Bool
   pre : Bool := false
+  preV : Bool := false
 
 def incSk (bk : Backend) : List Sk := match bk with | .mutex => MutexValue_inc | .mmap => MmapedValue_inc
 def getSk (bk : Backend) : List Sk := match bk with | .mutex => MutexValue_get | .mmap => MmapedValue_get
+def setSk (bk : Backend) : List Sk := match bk with | .mutex => MutexValue_set | .mmap => MmapedValue_set
 
 def getPrim (cfg : Cfg) (o : Nat) (tag : String) : Prim := .get (mk (getSk cfg.bk) o (fun _ => .keep)) o tag
 
@@ -128,6 +131,9 @@ def parseOp (cfg : Cfg) (tid idx : Nat) (f : String) : Option (List Prim) :=
   | ["inc", o, a] => do
     let o ← o.toNat?; let a ← a.toNat?
     pure [.silent (mk (incSk cfg.bk) o (only .value (.add a)))]
+  | ["set", o, a] => do
+    let o ← o.toNat?; let a ← a.toNat?
+    pure [.silent (mk (setSk cfg.bk) o (only .value (.set a)))]
   | ["get", o] => do
     let o ← o.toNat?
     pure [getPrim cfg o s!"G{o}"]
@@ -289,13 +295,15 @@ def outcomeOf (prims : List (List Prim)) (cells stored : List ICell) (n : Node) 
     "/".intercalate (per ++ [finalStr stored n.s])
 
 /-- all outcomes by depth-first search over the interleavings, memoised on the (finite) relevant part of the state -/
-def explore (pre : Bool) (prims : List (List Prim)) (maxNodes : Nat) : Option (Nat × List String) := Id.run do
+def explore (pre preV : Bool) (prims : List (List Prim)) (maxNodes : Nat) : Option (Nat × List String) := Id.run do
   let progs : List Code := prims.map (fun ps => (ps.map (fun p => p.call.code)).flatten)
   let cells := cellsOf progs
   let locks := locksOf progs
   let stored := (storedCells progs).toArray.qsort (fun a b => a.2 < b.2) |>.toList
   let nthr := progs.length
-  let c0 : ICell → CVal := fun c => if pre && c.1 == .metrics && c.2 == 0 then [(0, 900), (1, 901)] else []
+  let c0 : ICell → CVal := fun c =>
+    if pre && c.1 == .metrics && c.2 == 0 then [(0, 900), (1, 901)]
+    else if preV && c.1 == .value && c.2 ≤ 1 then [(0, 5)] else []
   let init : Node := { s := Model.Conc.init c0 progs, obs := Array.replicate nthr [] }
   let mut stack : Array Node := #[init]
   let mut seen : Std.HashSet String := {}
@@ -336,9 +344,9 @@ def explore (pre : Bool) (prims : List (List Prim)) (maxNodes : Nat) : Option (N
 def parseCfg (bk world : String) : Option Cfg :=
   match bk with
   | "mutex" => some { bk := .mutex, hasC := world.contains 'c', hasP := world.contains 'p' || world.contains 'q',
-                      pre := world.contains 'q' }
+                      pre := world.contains 'q', preV := world.contains 'v' }
   | "mmap" => some { bk := .mmap, hasC := world.contains 'c', hasP := world.contains 'p' || world.contains 'q',
-                     pre := world.contains 'q' }
+                     pre := world.contains 'q', preV := world.contains 'v' }
   | _ => none
 
 def parseProgram (cfg : Cfg) (f : String) : Option (List (List Prim)) :=
@@ -366,7 +374,7 @@ def handle : List String → String
       match parseProgram cfg prog with
       | none => "err bad-program"
       | some prims =>
-        match explore cfg.pre prims 400000 with
+        match explore cfg.pre cfg.preV prims 400000 with
         | none => "err too-large"
         | some (cnt, outs) => s!"ok {cnt} {";".intercalate outs}"
   | ["welllocked"] => "ok " ++ wellLockedReport
